@@ -431,7 +431,7 @@ def r4(ctx):
     nb = iff1.orelse if U(iff1.test).replace(" ", "") == "existing_mappingisnotNone" else iff1.body
     t1 = U(jd1.value.args[0])
     r1_ = U(jd1.value.func.value)
-    steps = [U(n.value).replace(" ", "").replace("\n", "") for n in nb if isinstance(n, ast.Assign) and U(n.targets[0]) == t1]
+    steps = [U(n.value).replace(" ", "").replace("\n", "").replace("by=['val']", "by='val'") for n in nb if isinstance(n, ast.Assign) and U(n.targets[0]) == t1]   # one sort column, as a list or not
     want_steps = [f"{r1_}.drop_duplicates().sort_values(by='val').reset_index(drop=True)", f"{t1}.reset_index(drop=False)", f"{t1}.rename(columns={{'index':'new_index'}})"]
     # the same three steps as one method chain, or split over differently named locals: read the table's final value through the
     # straight-line single assignments of the branch
